@@ -1511,3 +1511,37 @@ func (w *FWorld) DrawBoundSession(t *rapid.T) *FCmd {
 	}
 	return c
 }
+
+
+// DrawExpiringToken writes a fresh token that carries an expiration time (as the token endpoint stamps it from a TTL).
+func (w *FWorld) DrawExpiringToken(t *rapid.T) *FCmd {
+	tok := w.newToken(t)
+	if tok == nil {
+		return nil
+	}
+	if tok.ExpirationTime == nil {
+		exp := tok.CreateTime.Add(time.Duration(rapid.IntRange(1, 24).Draw(t, "exptokttl")) * time.Hour)
+		tok.ExpirationTime = &exp
+	}
+	tok.ServiceIdentities = structs.ACLServiceIdentities{&structs.ACLServiceIdentity{ServiceName: pick(t, "exptoksvc", ServiceNames)}}
+	tok.SetHash(true)
+	req := &structs.ACLTokenBatchSetRequest{Tokens: structs.ACLTokens{tok}}
+	return NewFCmd("acl/token-set", "acl", structs.ACLTokenSetRequestType, w.NextIdx(t), req, fmt.Sprintf("token-set %s expires=%s", short(tok.AccessorID), tok.ExpirationTime.Format(time.RFC3339)))
+}
+
+// DrawReap is the leader's token reaper: one batch delete of (up to two of) the tokens that are expired as of the
+// leader's clock; nil when there is none.
+func (w *FWorld) DrawReap(t *rapid.T) *FCmd {
+	var ids []string
+	for _, tok := range w.tokens() {
+		if tok.HasExpirationTime() && tok.ExpirationTime.Before(w.Clock) && len(ids) < 2 {
+			ids = append(ids, tok.AccessorID)
+		}
+	}
+	if len(ids) == 0 {
+		return nil
+	}
+	c := NewFCmd("acl/token-delete", "acl", structs.ACLTokenDeleteRequestType, w.NextIdx(t), &structs.ACLTokenBatchDeleteRequest{TokenIDs: ids}, "token-reap "+shortAll(ids))
+	c.RMW, c.Multi = true, len(ids) > 1
+	return c
+}
